@@ -323,21 +323,29 @@ class SyntheticBranch(SyntheticBlock):
         """
 
         old_branch_value_table = self.branch_value_table
+        old_jump_targets = self._jump_targets
+        # Determine, for every old jump target, the target that replaces it.
+        replacement: Dict[str, str] = {}
+        if len(jump_targets) == len(old_jump_targets):
+            # Same number of targets: replacement is positional, any number
+            # of targets may be updated at once.
+            replacement = dict(zip(old_jump_targets, jump_targets))
+        else:
+            # Different number of targets: targets that persist are kept and,
+            # if several old targets were merged into a single new target,
+            # all of them are redirected to that new target.
+            added = [t for t in jump_targets if t not in old_jump_targets]
+            for target in old_jump_targets:
+                if target in jump_targets:
+                    replacement[target] = target
+                elif len(added) == 1:
+                    replacement[target] = added[0]
         new_branch_value_table = {}
-        for target in self._jump_targets:
-            if target not in jump_targets:
-                # ASSUMPTION: only one jump_target is being updated
-                diff = set(jump_targets).difference(self._jump_targets)
-                assert len(diff) == 1
-                new_target = next(iter(diff))
+        for target in old_jump_targets:
+            if target in replacement:
                 for k, v in old_branch_value_table.items():
                     if v == target:
-                        new_branch_value_table[k] = new_target
-            else:
-                # copy all old values
-                for k, v in old_branch_value_table.items():
-                    if v == target:
-                        new_branch_value_table[k] = v
+                        new_branch_value_table[k] = replacement[target]
 
         return replace(
             self,
